@@ -924,6 +924,90 @@ def tie_comp(res, tier, rng, real):
                       found_input=False)
 
 
+def ctext(text):
+    '''A text with newlines as a Coq term over the model's [nl].'''
+    return '(' + ' ++ nl ++ '.join(cstr(part) for part in text.split('\n')) + ')'
+
+
+def tie_writecomp(res, tier, rng):
+    '''writeT4Composition byte for byte on synthetic dictionaries vs
+    Model.write_compositions (nuclide lists and rescaled concentrations are
+    C10's and are handed to the model as data).'''
+    import contextlib
+    import warnings
+    from t4_geom_convert.Kernel.Composition.CompositionConversionMCNPToT4 \
+        import compositionConversionMCNPToT4
+    from t4_geom_convert.Kernel.Composition.ConstructCompositionT4 import \
+        constructCompositionT4, extract_isotopes_fractions
+    from t4_geom_convert.Kernel.FileHandlers.Writer.WriteT4Composition import \
+        writeT4Composition
+    n = 150 if tier == 'quick' else 1500
+    cases, meta = [], []
+    with impl.mip_parser(COMP_DECK) as parser:
+        cards = compositionConversionMCNPToT4(parser)
+        mcs = clist(
+            f'(mkMcard {cz(k)} {cbool(bool(v.atom_fracs))} '
+            + clist(cpair(cstr(a), cstr(b))
+                    for a, b in extract_isotopes_fractions(v.isotopes)) + ')'
+            for k, v in cards.items())
+        for _ in range(n):
+            cells = c09_gen.gen_cells(rng)
+            conc = concrete_cells(cells)
+
+            def call():
+                buf = io.StringIO()
+                with warnings.catch_warnings(), \
+                        contextlib.redirect_stdout(io.StringIO()):
+                    warnings.simplefilter('ignore')
+                    writeT4Composition(parser, conc, buf)
+                    comps = constructCompositionT4(parser, conc)
+                return buf.getvalue(), comps
+            out = guarded(call)
+            pw = []
+            if out[0] == 'ok':
+                for key, lst in out[1][1].items():
+                    for comp in lst:
+                        if comp.typeDensity == 'POINT_WISE':
+                            pw.append((comp.material + '_' + comp.valueOfDensity,
+                                       comp.listMaterialComposition))
+                text = out[1][0]
+                expected = f'(Ok {ctext(text)})'
+                n_blocks = text.count(' 300 ')
+                res.count(f'writecomp:blocks-{min(n_blocks, 6)}')
+                # the property on the written text itself
+                lines = text.split('\n')
+                if int(lines[2]) != n_blocks:
+                    res.violation('impl-violation',
+                                  f'COMPOSITION count line {lines[2]} but '
+                                  f'{n_blocks} blocks', {'input': {'cells': cells}},
+                                  found_input=True)
+            else:
+                expected = f'(Err {out[1]})'
+                res.count('writecomp:' + out[1])
+            cases.append(cpair(
+                mcs, cdict(cells),
+                clist(cpair(cstr(name), clist(cpair(cstr(a), cstr(b))
+                                              for a, b in isos))
+                      for name, isos in pw), expected))
+            meta.append((cells, out if out[0] == 'err' else ('ok', out[1][0])))
+            res.seen(('writecomp', list(cells.items())))
+    bad, errs = run_cases(
+        'c09_wcomp', HEADER,
+        'list mcard * dict cell * list (string * list (string * string)) * '
+        'res string', 'check_write_comp', cases, chunk=40)
+    res.obligation(f'tie:writecomp ({len(cases)} dictionaries: the text '
+                   'writeT4Composition writes, byte for byte)',
+                   not bad and not errs, f'{len(bad)} disagreements {errs[:1]}')
+    for idx in bad[:10]:
+        cells, out = meta[idx]
+        res.violation('correspondence',
+                      f'writeT4Composition differs from the model: impl '
+                      f'{str(out)[:300]}',
+                      {'input': {'cells': cells}, 'observed': str(out),
+                       'theorem_or_correspondence': 'tie:writecomp'},
+                      found_input=False)
+
+
 # ---------------------------------------------------------------------------
 # pipeline (parse -> develop_lattice -> pot_fill) modulo key numbering
 # ---------------------------------------------------------------------------
@@ -1228,6 +1312,7 @@ def run(res, tier, seed, proofs_ok):
     tie_geomcomp(res, tier, rng, [r[:4] for r in real])
     tie_comp(res, tier, rng, [r[:4] for r in real])
     tie_pipeline(res, tier, rng, real)
+    tie_writecomp(res, tier, rng)
     # a tie that could not be evaluated (coqc error, empty sweep) must not pass
     # silently: the driver only counts violations
     if not res.violations or all(v.get('class') for v in res.violations):
